@@ -273,6 +273,53 @@ def r6(ctx):
         ctx.check(bool(call_sites(qb, callee)), "queue:%s" % fn_, "SelectionQueue::%s -> %s" % (fn_, callee), qb.where(line=qb.line))
 
 
+def r7(ctx):
+    """'the next one is sent only after the matching confirm; ... a timeout ends the series': inside the solicited confirm wait the
+    deadline is fixed when the fragment is sent (restarted only after an echo, per the standard), and the sequence number the wait
+    compares confirms with is the CURRENT fragment's (`series.ecsn` of the loop-carried series), not a copy taken before the loop."""
+    prog = ctx.prog
+    deadline_discipline(ctx, prog.abody("OutstationSession::wait_for_sol_confirm"), r"OutstationSession::read_until$", r"OutstationSession::new_confirm_deadline$", "sol-confirm-deadline")
+    bd = prog.abody("OutstationSession::sol_confirm_wait")
+    sym = ctx.sym(bd)
+    ws = call_sites(bd, r"OutstationSession::wait_for_sol_confirm$")
+    if len(ws) != 1:
+        raise AnchorError("sol_confirm_wait: wait_for_sol_confirm sites %d" % len(ws))
+    w = ws[0]
+    lp = innermost_loop(bd, w.idx)
+    if lp is None:
+        raise AnchorError("sol_confirm_wait: the wait is not in a loop")
+    arg = w.term.args[-1]
+    sl = set(bd.local_by_name("series"))
+
+    def reads_series_in_loop(op):
+        if op.is_const():
+            return False
+        if op.place.local in sl and ".ecsn" in op.place.proj:
+            return True
+        seen, work = set(), [op.place.local]
+        while work:
+            l = work.pop()
+            if l in seen:
+                continue
+            seen.add(l)
+            for blk, si in bd.defs.get(l, []):
+                if si == "term" or blk not in bd.live_blocks():
+                    continue
+                rv = bd.blocks[blk].stmts[si].rv
+                src = rv.get("a") if rv["k"] == "use" else None
+                pl = src.place if src is not None and not src.is_const() else (rv.get("p") if rv["k"] == "ref" else None)
+                if pl is None:
+                    continue
+                if pl.local in sl and ".ecsn" in pl.proj:
+                    return blk in lp[1]
+                work.append(pl.local)
+        return False
+
+    ctx.check(reads_series_in_loop(arg), "sol-confirm:ecsn-of-current-fragment", "wait_for_sol_confirm(.., series.ecsn) reads the loop-carried series inside the loop", bd.where(w.idx), bad_detail="the expected confirm sequence handed to wait_for_sol_confirm is `%s`: not series.ecsn read inside the loop, so from the second fragment on the matching confirm is compared with a stale number" % expr_str(sym.operand_expr(arg))[:60])
+    adv = [b.idx for b, si, st in bd.assigns() if st.dest.is_local() and st.dest.local in sl and b.idx in lp[1]]
+    ctx.check(bool(adv), "sol-confirm:series-advances", "`series` is re-assigned inside the loop (next fragment)", bd.where(w.idx))
+
+
 RULES = [
     ("C11.R1", "T5", "the static writer reads the frozen copy only", r1),
     ("C11.R2", "T2", "events before static, static only when all selected events fit; queue pop/update discipline", r2),
@@ -280,4 +327,5 @@ RULES = [
     ("C11.R4", "T2", "next fragment only after the matching confirm and ecsn.increment()", r4),
     ("C11.R5", "T3", "timeout / new request reset the selection, end the series, retain the request", r5),
     ("C11.R6", "T8/T5", "a partially written range resumes at the index that did not fit", r6),
+    ("C11.R7", "T2-loop/T8", "solicited confirm wait: deadline discipline; the expected confirm sequence is that of the current fragment", r7),
 ]
